@@ -6,11 +6,15 @@
 \* The input string is cut into reads in every possible way; after each read the parser takes every complete line.
 \* `Algo = "listed"` is the algorithm the code had before the repair (first LISTED terminator found anywhere in the
 \* buffer): TLC refutes Confluent for it with the input  L C L.
+\* Line length limit (MAX_LINE_SIZE): a line whose content is longer than MaxLine bytes is an error (LineTooLong), and the
+\* parser must say so as soon as it is certain - and not before: a held-back CR is not content yet.  `Limit = "len"` is
+\* the test the code had before the repair (whole buffer length, held-back CR included): TLC refutes Confluent for it
+\* with a line of exactly MaxLine bytes whose CRLF is cut between CR and LF.  MaxLine = 0 means no limit.
 EXTENDS Naturals, Sequences, TLC
 CONSTANTS Eols,      \* terminators in listing order: subsequence of <<"CRLF", "LF", "CR">>
-          MaxLen, Algo
-VARIABLES input, fed, raw, out, cuts
-vars == <<input, fed, raw, out, cuts>>
+          MaxLen, Algo, MaxLine, Limit
+VARIABLES input, fed, raw, out, cuts, err
+vars == <<input, fed, raw, out, cuts, err>>
 Sym == {"C", "L", "o"}
 Strings(n) == UNION {[1..k -> Sym] : k \in 0..n}
 Pat(e) == CASE e = "CRLF" -> <<"C", "L">> [] e = "LF" -> <<"L">> [] e = "CR" -> <<"C">>
@@ -34,20 +38,24 @@ FindEol(b) ==
            r == G(1, [i |-> 0, n |-> 0, e |-> "-"])
        IN IF r.i > 0 /\ r.e = "CR" /\ HasEol("CRLF") /\ r.i = Len(b) THEN [i |-> 0, n |-> 0]   \* hold the trailing CR back
           ELSE [i |-> r.i, n |-> r.n]
-RECURSIVE Drain(_, _)        \* take complete lines while there are any: [out, raw]
+Held(b) == IF HasEol("CRLF") /\ b # <<>> /\ b[Len(b)] = "C" THEN 1 ELSE 0     \* a trailing CR may still become a CRLF
+Pending(b) == MaxLine > 0 /\ (IF Limit = "len" THEN Len(b) ELSE Len(b) - Held(b)) > MaxLine   \* no terminator yet: too long already?
+RECURSIVE Drain(_, _)        \* take complete lines while there are any: [out, raw, err]
 Drain(b, acc) == LET f == FindEol(b) IN
-                 IF f.i = 0 THEN [out |-> acc, raw |-> b]
+                 IF f.i = 0 THEN [out |-> acc, raw |-> b, err |-> Pending(b)]
+                 ELSE IF MaxLine > 0 /\ f.i - 1 > MaxLine THEN [out |-> acc, raw |-> b, err |-> TRUE]
                  ELSE Drain(SubSeq(b, f.i + f.n, Len(b)), Append(acc, SubSeq(b, 1, f.i - 1)))
-Init == /\ input \in Strings(MaxLen) /\ fed = 0 /\ raw = <<>> /\ out = <<>> /\ cuts = <<>>
-Feed(k) == /\ fed + k <= Len(input)
-           /\ LET d == Drain(raw \o SubSeq(input, fed + 1, fed + k), out) IN out' = d.out /\ raw' = d.raw
+Init == /\ input \in Strings(MaxLen) /\ fed = 0 /\ raw = <<>> /\ out = <<>> /\ cuts = <<>> /\ err = FALSE
+Feed(k) == /\ fed + k <= Len(input) /\ ~err                      \* the parser is dead after an error
+           /\ LET d == Drain(raw \o SubSeq(input, fed + 1, fed + k), out) IN out' = d.out /\ raw' = d.raw /\ err' = d.err
            /\ fed' = fed + k /\ cuts' = Append(cuts, k) /\ UNCHANGED input
 Next == \E k \in 1..MaxLen : Feed(k)
 Spec == Init /\ [][Next]_vars
 -----------------------------------------------------------------------------
 Whole == Drain(input, <<>>)
 \* C13 / C15 at the byte level: the lines delivered do not depend on how the bytes were split into reads
-Confluent == fed = Len(input) => (out = Whole.out /\ raw = Whole.raw)
+Confluent == /\ err => (Whole.err /\ out = Whole.out)
+             /\ (fed = Len(input) /\ ~err) => (~Whole.err /\ out = Whole.out /\ raw = Whole.raw)
 \* and what is delivered is always a prefix of what one read would deliver (no line is delivered early and wrongly)
 PrefixOfWhole == Len(out) <= Len(Whole.out) /\ \A i \in DOMAIN out : out[i] = Whole.out[i]
 ====
